@@ -2,6 +2,9 @@ import NeoModel.Model.Wire.P256
 import NeoModel.Model.Wire.Item
 import NeoModel.Model.Wire.Mpt
 import NeoModel.Model.Wire.Nef
+import NeoModel.Model.Wire.Exec
+import NeoModel.Model.Wire.Cons
+import NeoModel.Model.Wire.P2P
 /-
 Token text of model values (the Go harness prints the same text from the real values, show.go) and the
 parser of the same text (value -> bytes direction of the tie). Driver-side code: not used by any theorem.
@@ -219,6 +222,105 @@ def pToken : P MethodToken := fun ts =>
 def pNef : P Nef := fun ts =>
   (pHex ts).bind fun (c, r) => (pHex r).bind fun (s, r) => (pCounted pToken r).bind fun (tk, r) =>
     (pHex r).bind fun (scr, r) => (pNum r).map fun (cs, r) => (⟨⟨c, s, tk, scr⟩, cs⟩, r)
+
+/-! execution results -/
+
+def showNotification (n : Notification) : Toks := [hx n.scriptHash, hx n.name] ++ showItem (.array n.state)
+
+def showAer (a : ExecResult) : Toks :=
+  [hx a.container, num a.trigger.toNat, num a.vmState, num a.gas, num a.stack.length] ++ showItems a.stack
+    ++ [num a.events.length] ++ (a.events.map showNotification).flatten
+    ++ [hx a.fault, num a.invocations.length] ++ a.invocations.map (fun i => hx (invocationC.enc i))
+
+def pNotification : P Notification := fun ts =>
+  (pHex ts).bind fun (h, r) => (pHex r).bind fun (n, r) => (pItem r).bind fun (it, r) =>
+    match it with
+    | .array l => some (⟨h, n, l⟩, r)
+    | _ => none
+
+def pInvocation : P Invocation := fun ts =>
+  (pHex ts).bind fun (b, r) =>
+    match invocationC.dec b with
+    | some (i, []) => some (i, r)
+    | _ => none
+
+def pAer : P ExecResult := fun ts =>
+  (pHex ts).bind fun (c, r) => (pByte r).bind fun (t, r) => (pNum r).bind fun (st, r) => (pNum r).bind fun (g, r) =>
+  (pCounted pItem r).bind fun (stack, r) => (pCounted pNotification r).bind fun (ev, r) => (pHex r).bind fun (f, r) =>
+  (pCounted pInvocation r).map fun (inv, r) => (⟨c, t, st, g, stack, ev, f, inv⟩, r)
+
+/-! dBFT messages -/
+
+def showHashes (l : List Bytes) : Toks := num l.length :: l.map hx
+
+def showPrepReq (sr : Bool) (p : PrepareRequest) : Toks :=
+  [num p.version, hx p.prevHash, num p.timestamp, num p.nonce] ++ showHashes p.txHashes
+    ++ (if sr then [hx p.stateRoot] else [])
+
+def showMsgHeader (h : MsgHeader) : Toks := [num h.typ.toNat, num h.blockIndex, num h.validator.toNat, num h.view.toNat]
+
+def showRecovery (sr : Bool) (r : Recovery) : Toks :=
+  [num r.changeViews.length] ++ (r.changeViews.map fun c => [num c.validator.toNat, num c.origView.toNat, num c.timestamp, hx c.inv]).flatten
+    ++ (match r.prep with
+      | .request h p => "req" :: (showMsgHeader h ++ showPrepReq sr p)
+      | .hash h => ["hash", hx h]
+      | .none => ["none"])
+    ++ [num r.preparations.length] ++ (r.preparations.map fun c => [num c.validator.toNat, hx c.inv]).flatten
+    ++ [num r.commits.length] ++ (r.commits.map fun c => [num c.view.toNat, num c.validator.toNat, hx c.signature, hx c.inv]).flatten
+
+def showConsMsg (sr : Bool) (m : ConsMsg) : Toks :=
+  showMsgHeader m.header ++ (match m.body with
+    | .changeView c => [num c.timestamp, num c.reason.toNat] ++ showHashes c.rejected
+    | .prepareRequest p => showPrepReq sr p
+    | .prepareResponse h => [hx h]
+    | .commit s => [hx s]
+    | .recoveryRequest t => [num t]
+    | .recoveryMessage r => showRecovery sr r)
+
+/-! P2P payloads -/
+
+def showCap (c : Capability) : Toks :=
+  num c.typ.toNat :: (match c.data with
+    | .server p => [num p]
+    | .node h => [num h]
+    | .flag => []
+    | .unknown d => [hx d])
+
+def showCaps (l : List Capability) : Toks := num l.length :: (l.map showCap).flatten
+
+def showVersion (v : Version) : Toks :=
+  [num v.magic, num v.version, num v.timestamp, num v.nonce, hx v.userAgent] ++ showCaps v.caps
+
+def showAddrs (l : List AddressAndTime) : Toks :=
+  num l.length :: (l.map fun a => [num a.timestamp, hx a.ip] ++ showCaps a.caps).flatten
+
+def showHashList (l : List Bytes) : Toks := num l.length :: l.map hx
+
+def showInventory (i : Inventory) : Toks := num i.typ.toNat :: showHashList i.hashes
+def showGetBlocks (g : GetBlocks) : Toks := [hx g.hashStart, num g.count]
+def showGetBlockByIndex (g : GetBlockByIndex) : Toks := [num g.indexStart, num g.count]
+def showHeaders (sr : Bool) (l : List Header) : Toks := num l.length :: (l.map (showHeader sr)).flatten
+def showMerkleBlock (m : MerkleBlock) : Toks :=
+  showHeader false m.header ++ [num m.hashes.length] ++ showHashList m.hashes ++ [hx m.flags]
+def showPing (p : Ping) : Toks := [num p.lastBlock, num p.timestamp, num p.nonce]
+def showNotary (r : NotaryRequest) : Toks := showTx r.main ++ showTx r.fallback ++ showWitness r.witness
+
+def showPayload (sr : Bool) : P2PPayload → Toks
+  | .null => []
+  | .version v => showVersion v
+  | .addr l => showAddrs l
+  | .ping p => showPing p
+  | .getBlockByIndex g => showGetBlockByIndex g
+  | .headers l => showHeaders sr l
+  | .getBlocks g => showGetBlocks g
+  | .inventory i => showInventory i
+  | .tx t => showTx t
+  | .block b => showBlock sr b
+  | .extensible e => showExtensible e
+  | .notary r => showNotary r
+  | .mptInventory l => showHashList l
+  | .mptData l => showHashList l
+  | .merkleBlock m => showMerkleBlock m
 
 end Text
 end NeoModel.Wire
